@@ -11,7 +11,7 @@ META = {
     'technique': 'writer template of ChangeBlock._format extracted by abstract interpretation and cut into lines; marked-language capture '
                  'agreement of the header line with topline, of each key=value item with keyvalue / value_re, of the trailer with endline; '
                  'abstract transition system of parse_changelog (state × line language) used to show that every line class of a well-formed '
-                 'block takes a warning-free branch that stores the line where _format reads it back; storage/emit order rules for every content-dependent layout of the block writer; line-primitive rule (a text is cut into lines at newlines only); line-primitive rule extended: the text that is cut into lines is not rewritten on its way to the cut',
+                 'block takes a warning-free branch that stores the line where _format reads it back; storage/emit order rules for every content-dependent layout of the block writer; line-primitive rule (a text is cut into lines at newlines only); line-primitive rule extended: the text that is cut into lines is not rewritten on its way to the cut; whole well-formed texts through the interpreted constructor and str() (no warning, byte-for-byte, blocks in file order); versions of the Policy grammar can be shown (the interpreted family of C14)',
     'level_text': 'Static decision for all texts of the deb-changelog(5) grammar as stated in the property: every header/trailer the writer '
                   'can emit is matched with groups on the written slots (so parsed attributes equal what was written and re-format is '
                   'identical), change/blank lines are routed warning-free to the change list, header/trailer lines to their branches, EOF '
